@@ -80,13 +80,13 @@ ADDED = {
  "C09": " Later additions: size sweep and merge cascades through all views." + SEQ,
  "C10": " Later additions: EVERY polar ring (last index, first of the next, one generic index) of depths 12..18 (quick) / 14..29 (thorough); carry-chain NESTED cells." + SEQ,
  "C11": " The former known finding KF-2 is repaired (fix 5b063a3). Later additions: nside SWEEP, every nside 1..40000 (quick) / 2^20 (thorough) on 18 key cells + the six public layout constants (n_hash, n_isolatitude_rings, first_hash_*) against R3." + SEQ,
- "C12": " Later additions: deep polygons (depths to 29), longitude representations (+-2pi, +6pi, unwrapped across lon = 0)." + SEQ,
+ "C12": " Later additions: deep polygons (depths to 29), longitude representations (+-2pi, +6pi, unwrapped across lon = 0), polar exact-mode polygons, vertex-count sweep (every n = 9..132 / 520, pie slices and regular n-gons)." + SEQ,
  "C13": " Later additions: deep tier (depths 9..29, ellipses 0.3..31 cells across), deep-large tier (thousands of cells across). KF-1 repaired (fix f1d7abd)." + SEQ,
- "C14": " Later additions: delta_depth 5, 8, 9, 13, 17 and a sweep of every delta_depth 4..12 / 16; carry-chain cells; the two public direction helpers of lib.rs checked directly and exhaustively on every border cell x outward neighbour." + SEQ,
- "C15": " Later additions: bulk pushes (~9000), one-tile sets, re-push SIZE SWEEP (a whole tile then every n = 1..340 / 4200 of its cells again), merge-cascade sequences (every cascade length 1..29), long scattered histories of 2^k-1..2^k+1 pushes (k = 10..16 / 20).",
+ "C14": " Later additions: delta_depth 5, 8, 9, 13, 17 and a sweep of every delta_depth 4..12 / 16; carry-chain cells; the two public direction helpers of lib.rs checked directly and exhaustively on every border cell x outward neighbour; huge delta_depth (21..23): internal edge, side helpers and external edge element by element; periodic coordinates." + SEQ,
+ "C15": " Later additions: bulk pushes (~9000), one-tile sets, re-push SIZE SWEEP (a whole tile then every n = 1..340 / 4200 of its cells again), merge-cascade sequences (every cascade length 1..29), long scattered histories of 2^k-1..2^k+1 pushes (k = 10..16 / 20), word-size aliases (runs continued modulo 2^8, 2^16, 2^32).",
  "C16": " Later additions: claim-2 radii up to pi; claim 3 at the NARROWEST cells of depths 0..6 / 0..8 located by exhaustive search; carry-chain cells. KF-1 repaired (fix f1d7abd)." + SEQ,
  "C17": " Later additions: exponent sweep (sphere and plane), integer degrees, float literals of the sources." + SEQ,
- "C18": " Later additions: all ordered pairs of coordinates taken from the integer literals of the current sources; every pair of values of a 12-bit window at the same offset in i and j." + SEQ,
+ "C18": " Later additions: all ordered pairs of coordinates taken from the integer literals of the current sources; every pair of values of a 12-bit window at the same offset in i and j; periodic coordinates (every v | v<<16, every 1/2/4/8-bit pattern)." + SEQ,
  "C19": " Later additions: weighted mean checked for every position (grid coordinates from the reference projection), carry-chain cells." + SEQ,
  "C20": " Later additions: mutual-exclusion probe (a thread held inside the constructor / at the end of the initialisation closure, a free-running second caller must block); a SAMPLED first-use stress in fresh processes (15 free-running threads on one table at a time; pairs of threads making the first use of the Layer and of the cell-size constants of one depth with a stagger, watchdog against calls that never return; labelled non-exhaustive: corroboration for hook-free windows only).",
 }
